@@ -24,7 +24,8 @@ ENGINE = "hypothesis"
 TECHNIQUE = "differential property-based testing across input channels and parser modes (one logical setting rendered per channel, results compared type for type)"
 LEVEL_TEXT = ("Each generated (parser, settings) pair is pushed through up to 11 channels and 4 parser modes; all must agree on the typed "
               "result or all must reject. The renderer passes top-level str raw on argv/env and everything else as JSON text; look-alike strings "
-              "are aimed at the YAML resolver tables. Exploration bounded by the grammar; registered types are covered by C20.")
+              "are aimed at the YAML resolver tables. One case in five comes from the argument-kinds family (DESIGN 3.3b), taken through object, "
+              "string, --cfg, argv and environment. Exploration bounded by the grammars; registered types are covered by C20.")
 LEVEL_NOTE = ("Trusted: the channel renderer (its rules are listed in DESIGN 3.3 and were each found necessary by probing) and typed_eq. "
               "Inherent, documented differences are encoded in the comparator: jsonnet has 53-bit numbers, prints integral floats as ints and "
               "sorts object fields; omegaconf interpolation syntax (${..}) is its feature and is not generated.")
